@@ -91,12 +91,31 @@ class U(V):
         return hash("U")
 
 
+class Ref(V):
+    """A reference to a mutable object (list / dict / defaultdict) in the state's heap."""
+
+    def __init__(self, id: int, kind: str) -> None:
+        self.id = id
+        self.kind = kind
+
+    def __repr__(self) -> str:
+        return f"Ref({self.kind}#{self.id})"
+
+    def __eq__(self, o: object) -> bool:
+        return isinstance(o, Ref) and o.id == self.id
+
+    def __hash__(self) -> int:
+        return hash(("Ref", self.id))
+
+
 class State:
     def __init__(self) -> None:
         self.env: Dict[str, V] = {}
         self.effects: List[Tuple[Any, ...]] = []
         self.assume: Dict[str, bool] = {}
         self.term: Optional[Tuple[Any, ...]] = None  # ('return', V) | ('raise', text) | ('break',) | ('continue',)
+        self.heap: Dict[int, Any] = {}  # id -> list | dict | ("dd", factory, dict)
+        self._next = [0]
 
     def fork(self) -> "State":
         s = State()
@@ -104,7 +123,38 @@ class State:
         s.effects = list(self.effects)
         s.assume = dict(self.assume)
         s.term = self.term
+        s.heap = {k: (list(v) if isinstance(v, list) else dict(v) if isinstance(v, dict) else (v[0], v[1], dict(v[2])))
+                  for k, v in self.heap.items()}
+        s._next = [self._next[0]]
         return s
+
+    def alloc(self, kind: str, obj: Any) -> Ref:
+        self._next[0] += 1
+        self.heap[self._next[0]] = obj
+        return Ref(self._next[0], kind)
+
+    def deref(self, r: Ref) -> Any:
+        return self.heap[r.id]
+
+    def dict_of(self, r: Ref) -> Dict[Any, Any]:
+        o = self.heap[r.id]
+        return o[2] if isinstance(o, tuple) else o
+
+    def freeze(self, v: Any) -> Any:
+        """Immutable snapshot of a value (references replaced by their current contents)."""
+        if isinstance(v, Ref):
+            o = self.heap[v.id]
+            if isinstance(o, list):
+                return R("list", items=tuple(self.freeze(x) for x in o))
+            d = o[2] if isinstance(o, tuple) else o
+            return R("dict", items=tuple((self.freeze(k), self.freeze(x)) for k, x in d.items()))
+        if isinstance(v, K) and isinstance(v.v, tuple):
+            return K(tuple(self.freeze(x) for x in v.v))
+        if isinstance(v, R):
+            return R(v.kind, **{k: self.freeze(x) for k, x in v.fields.items()})
+        if isinstance(v, tuple):
+            return tuple(self.freeze(x) for x in v)
+        return v
 
 
 def truth(v: V) -> Optional[bool]:
@@ -113,6 +163,8 @@ def truth(v: V) -> Optional[bool]:
     if isinstance(v, S):
         return v.truth
     if isinstance(v, R):
+        if v.kind in ("list", "dict") and "items" in v.fields:
+            return bool(v.fields["items"])
         return True
     return None
 
@@ -133,6 +185,7 @@ class Interp:
         on_subscript: Optional[Callable[..., Optional[V]]] = None,
         strict_stmt: bool = True,
         max_states: int = 512,
+        heap: bool = False,
     ) -> None:
         self.on_name = on_name
         self.on_attr = on_attr
@@ -140,6 +193,7 @@ class Interp:
         self.on_subscript = on_subscript
         self.strict_stmt = strict_stmt
         self.max_states = max_states
+        self.heap = heap
 
     # -- expressions -----------------------------------------------------------
     def eval(self, e: ast.AST, st: State) -> V:
@@ -207,7 +261,17 @@ class Interp:
             vals = [self.eval(x, st) for x in e.elts]
             return K(tuple(vals))
         if isinstance(e, ast.List):
-            vals = [self.eval(x, st) for x in e.elts]
+            vals = []
+            for x in e.elts:
+                if isinstance(x, ast.Starred):
+                    seq = self.iterate(self.eval(x.value, st), st)
+                    if seq is None:
+                        return U("starred")
+                    vals.extend(seq)
+                else:
+                    vals.append(self.eval(x, st))
+            if self.heap:
+                return st.alloc("list", list(vals))
             return R("list", items=tuple(vals))
         if isinstance(e, ast.Call):
             fname = dotted(e.func)
@@ -219,6 +283,10 @@ class Interp:
             # built-in record operation: x.replace(field=value)
             if isinstance(fval, R) and isinstance(e.func, ast.Attribute) and e.func.attr == "replace" and not args:
                 return fval.replace(**kwargs)
+            if self.heap:
+                v = self.heap_call(e, fname, fval, args, kwargs, st)
+                if v is not None:
+                    return v
             if self.on_call:
                 v = self.on_call(e, fname, fval, args, kwargs, st)
                 if v is not None:
@@ -241,6 +309,28 @@ class Interp:
                         return K(obj.v[slice(f["lower"].v, f["upper"].v, f["step"].v)])
                     except Exception:
                         return U("slice")
+            if isinstance(obj, Ref) and not isinstance(key, U):
+                o = st.deref(obj)
+                if isinstance(o, list):
+                    if isinstance(key, K) and isinstance(key.v, int):
+                        try:
+                            return o[key.v]
+                        except IndexError:
+                            st.effects.append(("IndexError", norm(e)))
+                            return U("IndexError")
+                    if isinstance(key, R) and key.kind == "slice" and all(isinstance(key.fields[x], K) for x in ("lower", "upper", "step")):
+                        f = key.fields
+                        return st.alloc("list", o[slice(f["lower"].v, f["upper"].v, f["step"].v)])
+                    return U("list index")
+                d = st.dict_of(obj)
+                if key in d:
+                    return d[key]
+                if isinstance(o, tuple):  # defaultdict: create the missing entry
+                    nv = self.make_default(o[1], st)
+                    d[key] = nv
+                    return nv
+                st.effects.append(("KeyError", norm(e)))
+                return U("KeyError")
             if isinstance(obj, R) and obj.kind == "dict" and not isinstance(key, U):
                 for k, v in obj.fields["items"]:
                     if k == key:
@@ -254,9 +344,16 @@ class Interp:
             return U(f"subscript {norm(e)}")
         if isinstance(e, ast.JoinedStr):
             return U("fstring")
+        if isinstance(e, (ast.GeneratorExp, ast.ListComp, ast.SetComp, ast.DictComp)):
+            return self.comprehension(e, st)
+        if isinstance(e, ast.Starred):
+            return R("starred", of=self.eval(e.value, st))
         if isinstance(e, ast.Dict):
             if all(k is not None for k in e.keys):
-                return R("dict", items=tuple((self.eval(k, st), self.eval(v, st)) for k, v in zip(e.keys, e.values)))
+                pairs = [(self.eval(k, st), self.eval(v, st)) for k, v in zip(e.keys, e.values)]
+                if self.heap:
+                    return st.alloc("dict", dict(pairs))
+                return R("dict", items=tuple(pairs))
             return U("dict unpack")
         if isinstance(e, ast.Slice):
             return R(
@@ -277,6 +374,154 @@ class Interp:
                     pass
             return U("binop")
         return U(type(e).__name__)
+
+    def iterate(self, it: V, st: State) -> Optional[List[V]]:
+        """The concrete element sequence of an iterable, if it is known."""
+        if isinstance(it, K) and isinstance(it.v, tuple):
+            return [x if isinstance(x, V) else K(x) for x in it.v]
+        if isinstance(it, K) and isinstance(it.v, frozenset):
+            return sorted(it.v, key=repr)
+        if isinstance(it, R) and it.kind == "list":
+            return list(it.fields["items"])
+        if isinstance(it, R) and it.kind == "dict":
+            return [k for k, _ in it.fields["items"]]
+        if isinstance(it, R) and it.kind == "dict_items":
+            return [K((k, v)) for k, v in it.fields["items"]]
+        if isinstance(it, Ref):
+            o = st.deref(it)
+            if isinstance(o, list):
+                return list(o)
+            return list(st.dict_of(it).keys())
+        return None
+
+    def make_default(self, factory: str, st: State) -> V:
+        if factory == "list":
+            return st.alloc("list", [])
+        if factory == "dict":
+            return st.alloc("dict", {})
+        if factory == "set":
+            return K(frozenset())
+        if factory == "int":
+            return K(0)
+        return U("default factory " + factory)
+
+    def heap_call(self, e: ast.Call, fname: Optional[str], fval: Optional[V], args: List[V], kwargs: Dict[str, V], st: State) -> Optional[V]:
+        meth = e.func.attr if isinstance(e.func, ast.Attribute) else None
+        tail = (fname or "").split(".")[-1]
+        if isinstance(fval, Ref) and meth is not None:
+            o = st.deref(fval)
+            if isinstance(o, list):
+                if meth == "append" and len(args) == 1:
+                    o.append(args[0])
+                    return K(None)
+                if meth == "extend" and len(args) == 1:
+                    seq = self.iterate(args[0], st)
+                    if seq is None:
+                        return U("extend with unknown iterable")
+                    o.extend(seq)
+                    return K(None)
+                if meth == "copy":
+                    return st.alloc("list", list(o))
+                return None
+            d = st.dict_of(fval)
+            if meth == "items" and not args:
+                return K(tuple(K((k, v)) for k, v in d.items()))
+            if meth == "keys" and not args:
+                return K(tuple(d.keys()))
+            if meth == "values" and not args:
+                return K(tuple(d.values()))
+            if meth == "get" and args:
+                return d.get(args[0], args[1] if len(args) > 1 else K(None))
+            if meth == "setdefault" and len(args) == 2:
+                return d.setdefault(args[0], args[1])
+            if meth == "isdisjoint":
+                return None
+            return None
+        if isinstance(fval, R) and fval.kind == "dict" and meth in ("items", "keys", "values") and not args:
+            it = fval.fields["items"]
+            if meth == "items":
+                return K(tuple(K((k, v)) for k, v in it))
+            return K(tuple(k for k, _ in it)) if meth == "keys" else K(tuple(v for _, v in it))
+        if fname is None:
+            return None
+        if tail == "defaultdict" and len(args) <= 1:
+            fac = args[0].name.split(":")[-1] if args and isinstance(args[0], S) else "none"
+            return st.alloc("defaultdict", ("dd", fac, {}))
+        if fname == "len" and len(args) == 1 and isinstance(args[0], Ref):
+            o = st.deref(args[0])
+            return K(len(o) if isinstance(o, list) else len(st.dict_of(args[0])))
+        if fname in ("list", "tuple") and len(args) == 1:
+            seq = self.iterate(args[0], st)
+            if seq is not None:
+                return st.alloc("list", list(seq)) if fname == "list" else K(tuple(seq))
+            return None
+        if fname == "dict" and not args and not kwargs:
+            return st.alloc("dict", {})
+        if fname in ("chain", "itertools.chain"):
+            out: List[V] = []
+            for a in args:
+                seq = self.iterate(a, st)
+                if seq is None:
+                    return U("chain of unknown iterable")
+                out.extend(seq)
+            return K(tuple(out))
+        if fname in ("chain.from_iterable", "itertools.chain.from_iterable") and len(args) == 1:
+            outer = self.iterate(args[0], st)
+            if outer is None:
+                return U("chain.from_iterable of unknown iterable")
+            out2: List[V] = []
+            for a in outer:
+                seq = self.iterate(a, st)
+                if seq is None:
+                    return U("chain.from_iterable of unknown iterable")
+                out2.extend(seq)
+            return K(tuple(out2))
+        return None
+
+    def comprehension(self, e: ast.AST, st: State) -> V:
+        """A comprehension over a concrete tuple/list/dict record is unrolled; over anything else it
+        becomes one symbolic value R('comp', ...) whose element expression was evaluated once with the
+        target bound to R('elem', of=<iterable>) - "for every element"."""
+        kind = {ast.GeneratorExp: "gen", ast.ListComp: "list", ast.SetComp: "set", ast.DictComp: "dict"}[type(e)]
+        gens = e.generators  # type: ignore[attr-defined]
+        if len(gens) != 1:
+            return U("nested comprehension")
+        gen = gens[0]
+        it = self.eval(gen.iter, st)
+        sub = st.fork()
+        sub.effects = st.effects
+        sub.heap = st.heap
+        sub._next = st._next
+        concrete: Optional[List[V]] = self.iterate(it, st)
+        if concrete is not None:
+            out: List[Any] = []
+            for el in concrete:
+                self._assign(gen.target, el, sub)
+                keep = True
+                for c in gen.ifs:
+                    t = self._truth_of(c, sub)
+                    if t is None:
+                        return U("comprehension filter undecided")
+                    keep = keep and t
+                if not keep:
+                    continue
+                if kind == "dict":
+                    out.append((self.eval(e.key, sub), self.eval(e.value, sub)))  # type: ignore[attr-defined]
+                else:
+                    out.append(self.eval(e.elt, sub))  # type: ignore[attr-defined]
+            if kind == "dict":
+                return st.alloc("dict", dict(out)) if self.heap else R("dict", items=tuple(out))
+            if kind == "set":
+                return K(frozenset(out))
+            if kind == "gen":
+                return K(tuple(out))
+            return st.alloc("list", list(out)) if self.heap else R("list", items=tuple(out))
+        elem = R("elem", of=it)
+        self._assign(gen.target, elem, sub)
+        ifs = tuple(self.eval(c, sub) for c in gen.ifs)
+        if kind == "dict":
+            return R("comp", ckind=K(kind), key=self.eval(e.key, sub), elt=self.eval(e.value, sub), over=it, ifs=ifs)  # type: ignore[attr-defined]
+        return R("comp", ckind=K(kind), elt=self.eval(e.elt, sub), over=it, ifs=ifs)  # type: ignore[attr-defined]
 
     def _compare(self, op: ast.cmpop, a: V, b: V) -> Optional[bool]:
         if isinstance(op, (ast.Is, ast.Eq, ast.IsNot, ast.NotEq)):
@@ -321,6 +566,9 @@ class Interp:
         return None
 
     def _value_truth(self, e: ast.AST, v: V, st: State) -> Optional[bool]:
+        if isinstance(v, Ref):
+            o = st.deref(v)
+            return bool(o) if isinstance(o, list) else bool(st.dict_of(v))
         t = truth(v)
         if t is None:
             key = norm(e)
@@ -394,6 +642,9 @@ class Interp:
             if isinstance(v, K) and isinstance(v.v, tuple) and len(v.v) == len(target.elts):
                 for t, x in zip(target.elts, v.v):
                     self._assign(t, x if isinstance(x, V) else K(x), st)
+            elif isinstance(v, R) and v.kind == "elem":
+                for i, t in enumerate(target.elts):
+                    self._assign(t, R("proj", of=v, index=K(i)), st)
             else:
                 for t in target.elts:
                     self._assign(t, U("unpack"), st)
@@ -405,6 +656,16 @@ class Interp:
         elif isinstance(target, ast.Subscript):
             obj = self.eval(target.value, st)
             key = self.eval(target.slice, st)
+            if isinstance(obj, Ref):
+                o = st.deref(obj)
+                if isinstance(o, list):
+                    if isinstance(key, K) and isinstance(key.v, int) and -len(o) <= key.v < len(o):
+                        o[key.v] = v
+                    else:
+                        st.effects.append(("IndexError", norm(target)))
+                else:
+                    st.dict_of(obj)[key] = v
+                return
             st.effects.append(("setitem", norm(target.value), key, v))
             if isinstance(obj, R) and obj.kind == "dict" and isinstance(target.value, ast.Name):
                 items = tuple((k, x) for k, x in obj.fields["items"] if k != key) + ((key, v),)
@@ -468,10 +729,9 @@ class Interp:
             return [st]
         if isinstance(s, ast.For):
             it = self.eval(s.iter, st)
-            if isinstance(it, K) and isinstance(it.v, tuple):
-                elems = [x if isinstance(x, V) else K(x) for x in it.v]
-            elif isinstance(it, R) and it.kind == "list":
-                elems = list(it.fields["items"])
+            seq0 = self.iterate(it, st)
+            if seq0 is not None:
+                elems = seq0
             else:
                 # one symbolic iteration stands for every element
                 elems = [R("elem", of=it)]
